@@ -26,6 +26,12 @@ type recFs struct {
 	mu    sync.Mutex
 	Opens []string
 	Muts  []string
+	Stats []string
+}
+
+func (r *recFs) Stat(name string) (os.FileInfo, error) {
+	r.note(&r.Stats, name)
+	return r.Fs.Stat(name)
 }
 
 func (r *recFs) note(list *[]string, name string) {
